@@ -80,6 +80,16 @@ func (v VerifPool) PutOnCooldown(id peer.ID) { v.p.putOnCooldown(id) }
 func (v VerifPool) Has(id peer.ID) bool      { return v.p.has(id) }
 func (v VerifPool) Len() int                 { return v.p.len() }
 func (v VerifPool) Peers() []peer.ID         { return v.p.peers() }
+
+// SetClock replaces the clock of the pool's cool-down queue (pools created inside the Manager start with the
+// wall clock). Call it before the first entry is pushed.
+func (v VerifPool) SetClock(clk clock.Clock) {
+	q := v.p.cooldown
+	q.Lock()
+	q.clock = clk
+	q.Unlock()
+}
+
 func (v VerifPool) SetCleanupThreshold(n int) {
 	v.p.m.Lock()
 	v.p.cleanupThreshold = n
